@@ -31,6 +31,42 @@ CHECKS = {
         ref="DESIGN.md §4 C06", note=MODEL_NOTE),
 }
 
+
+CHECKS.update({
+    "C01": dict(
+        technique="runtime monitoring: record/replay differential — every execution under random/PCT/URW/DFS/round-robin is replayed from the printed form of the runtime's recorded schedule and compared event by event (offered sets, choices, draw values, operation results, termination); nondeterminism checker run on the same bodies",
+        text="For every observed execution (passing, deadlocking, panicking) of the generated bodies, replaying the runtime's own recorded schedule string reproduced identical decisions, draws, operation results and ending; the runtime's record equalled what the recording wrapper saw.",
+        ref="DESIGN.md §4 C01", note="trusted: the recording wrapper (std-only), bodies are the harness's deterministic programs"),
+    "C08": dict(
+        technique="runtime monitoring: online contract checker over every Scheduler call (wrapper log cross-checked with the runtime's task table and yield requests from the verif hook and with task ids logged by the body), wrapper sandwiches, stop-at-k fault injection",
+        text="On every decision observed (all schedulers, all families, yields/parks) the arguments met the Scheduler contract, user code between decisions belonged to the chosen task, returning None ended the execution without failure, MetricsScheduler and the nondeterminism checker were transparent.",
+        ref="DESIGN.md §4 C08", note="trusted: hook H1 (read-only snapshot in ExecutionState::schedule), the recording wrappers"),
+    "C09": dict(
+        technique="runtime monitoring: differential between DfsScheduler's executed schedules and the leaves found by an independent exhaustive enumerator on the same body; iteration-bound and ContinueAfter grids",
+        text="For every body explored, DFS executed exactly the set of leaves of the choice tree once each, honoured max_iterations exactly, enumerated exactly the distinct length-k prefixes under ContinueAfter(k), and used one fixed data stream.",
+        ref="DESIGN.md §4 C09", note="trusted: EnumScheduler (independent enumerator)"),
+    "C10": dict(
+        technique="runtime monitoring: run-vs-run and iteration-vs-reported-seed differentials; chi-square uniformity and lag-1 independence tests on observed choice positions (p<1e-9); bounded coverage of small trees against an independent enumeration",
+        text="Same-seed runs were identical, sampled iterations were reproduced from their reported seeds incl. draws, observed choice frequencies are consistent with uniform independent choice, every schedule of the small trees tried was visited within the computed bound, URW chose every offered task.",
+        ref="DESIGN.md §4 C10", note="statistical: rejection only at p<1e-9; program families chosen by the harness"),
+    "C11": dict(
+        technique="runtime monitoring: black-box priority-order trace checker over recorded PCT decisions counting forced demotions; one-sided binomial test of hit rates on planted depth-d bugs; run-vs-run differential",
+        text="No observed PCT execution (after the first) chose a task outranked by another offered task without a legal reason, none showed more than depth-1 forced demotions, iteration counts matched, hit rates on the planted bugs met 1/(n·k^(d-1)).",
+        ref="DESIGN.md §4 C11", note="observed demotions are a lower bound on change points; hit-rate family chosen by the harness"),
+    "C13": dict(
+        technique="runtime monitoring: step counts measured unbounded, then FailAfter/ContinueAfter grids around them; iteration budgets and time limits checked against body-invocation logs",
+        text="On every body/schedule tried no execution exceeded its step bound, FailAfter failed exactly the executions needing more steps, ContinueAfter never raised and kept iteration counts, budgets and max_time were honoured, reset_step_count restarted the count.",
+        ref="DESIGN.md §4 C13", note="executions needing exactly n steps under bound n are not judged"),
+    "C15": dict(
+        technique="runtime monitoring: happens-before graph built from the operation log by API-level rules vs current::clock() sampled after every operation (edge reflection, monotonicity, all-pairs precision on complete-rule programs), target-clock replays checked against graph ancestors",
+        text="For every execution observed, every API-level happens-before edge was reflected by the sampled clocks, task clocks only grew, unordered event pairs were never reported ordered (on programs where the rule set is complete); target-clock replay kept all ancestors except for the listed known limitation.",
+        ref="DESIGN.md §4 C15", note="trusted: the edge rules in checks/c15.rs; precision only judged where Shuttle documents no conservative edges"),
+    "C16": dict(
+        technique="runtime monitoring: generated and boundary schedules round-tripped through the public codec in three textual forms; malformed-input classes (prefixes, non-hex, versions, hand-made headers) run under catch_unwind and in forked children so that aborts are observed",
+        text="All generated schedules round-tripped exactly in all textual forms; every malformed string tried was rejected through the return value (no panic, no abort, no wrong decode).",
+        ref="DESIGN.md §4 C16", note="a cut string that only lost zero padding and still decodes to the original schedule is accepted"),
+})
+
 NOT_YET = {}
 
 def main():
